@@ -79,4 +79,9 @@ func init() {
 		Monitors: func() []mon.Monitor { return []mon.Monitor{mon.NewC14()} },
 		Plan:     plan([]run.PlanItem{pi("commit-life", 10), pi("vest-edge", 4)}, []run.PlanItem{pi("commit-life", 48), pi("vest-edge", 12), pi("replicas", 4)}),
 		Assume:   []string{boundsAssume, "single-message transactions for the observed accounts (the harness only sends those)"}}
+	run.Props["C16"] = &run.PropSpec{ID: "C16", Level: "exploration",
+		Rule:     "one evaluation = one GetAssetPrice / GetAssetPriceFromDenom lookup (after every commit and at the pre-message probe of every non-oracle message) compared with the reference map, one feed message judged against the reference feeder set, or one full store-vs-reference comparison; distinct = (asked name, returned entry) changed and new",
+		Monitors: func() []mon.Monitor { return []mon.Monitor{mon.NewC16()} },
+		Plan:     plan([]run.PlanItem{pi("oracle-names", 12)}, []run.PlanItem{pi("oracle-names", 48)}),
+		Assume:   []string{boundsAssume, "reference = successful feed messages observed at the post-tx probe + the end-block expiry rule with the parameters read from state; feeder-set changes executed by governance are mirrored by reading the feeder store after the block"}}
 }
